@@ -216,8 +216,10 @@ PARTIAL = {
             'and for a joiner that takes a snapshot before it is a member (KF-C10-3: the snapshot lists the joiner; found by the '
             'refinement of the snapshot fragment, Raft/RefineM2Finding.v, DESIGN 17.1); under the discipline D1-D4 of DESIGN 16.5 '
             'it is proved for the abstract Raft with membership coq/AbstractM (Props/C10m.v), to which the model of the code with '
-            'dyn = true is tied by a refinement for a fragment (Props/TierCM*.v: no dump files, voters never restart); dynamic '
-            'membership together with journal files and member restarts is outside the generators'],
+            'dyn = true is tied by a refinement for fragments (Props/TierCM*.v: no dump files, voters never restart; with compaction '
+            'and snapshot installation under the run hypothesis snap_ok, which is the negation of the trigger of KF-C10-3); dynamic '
+            'membership together with journal files and member restarts is covered by one scripted scenario '
+            '(member_entry_behind_stored_commit) and by no random generator'],
     'C12': [],
     'C18': ['non-interference of read-only nodes is refuted in one respect (a voter whose only connection is an observer starts '
             'elections: C18_noninterference_refuted) and proved for the leader phase; what the property states (no vote, no leadership, '
